@@ -357,7 +357,11 @@ impl SharedRateLimiter {
                 // Try again after waiting
                 let mut state = self.state.lock().unwrap();
                 match state.try_acquire() {
-                    Ok(additional_wait) => Ok(wait_duration + additional_wait),
+                    // A permit of the new window was taken for this caller
+                    Ok(Duration::ZERO) => Ok(wait_duration),
+                    // The freed permits went to other waiters: no permit was taken, so
+                    // admitting this caller would exceed the limit of the window
+                    Ok(_) => Err(()),
                     Err(_) => Err(()), // Timeout exceeded
                 }
             }
